@@ -153,6 +153,13 @@ def verify_function(reg, contract, prefix="", fixed=None):
                 ctx.facts.append(rv.z > 0)
             if v.k == "str" and v.x is None and pn in contract.str_domains:
                 ctx.str_domains[v.z.get_id()] = list(contract.str_domains[pn])
+        for gn, gt in getattr(contract, "ghost_params", {}).items():
+            gv = fresh_of_type(ex, gt, gn)
+            st.env[gn] = gv
+            st.defd[gn] = z3.BoolVal(True)
+            for rv in _refs_of(gv):
+                ctx.param_refs.append(rv.z)
+                ctx.facts.append(rv.z > 0)
         if fsrc.node.args.vararg:
             from .symexec import mk_tuple
 
